@@ -266,7 +266,7 @@ func (r *Run) execute() int {
 		if len(h.Tiers) > 0 && !contains(h.Tiers, r.tier) {
 			continue
 		}
-		if r.only != nil && !r.only.MatchString(h.Func) {
+		if r.only != nil && !r.only.MatchString(h.Func) && !r.only.MatchString(h.Name) {
 			continue
 		}
 		byVar[h.Variant] = append(byVar[h.Variant], h)
